@@ -80,7 +80,6 @@ def parse_bound(b):
 QUIRKS = {
     "A-49": "INCR / DECR / INCRBY / DECRBY treat a string holding the empty value as 0 (Redis: not an integer)",
     "A-36": "HINCRBY wraps around at the int64 bounds (Redis: overflow error)",
-    "A-48": "ZADD GT / LT never add a member that is not there yet, and reply the number of UPDATED members (Redis: GT / LT do not prevent adding; the reply counts added members only)",
     "A-50": "RENAMENX replies 0 when the source does not exist (Redis: error 'no such key')",
     "A-01b": "GETRANGE with stop < -len yields the empty string (Redis clamps to the first byte)",
     "A-51": "LPOP / RPOP with a count of 0 reply null (Redis: an empty array)",
@@ -482,11 +481,8 @@ class Ref:
         pairs = [(parse_score(a[i]), a[i + 1]) for i in range(0, len(a), 2)]
         z = dict(self.get(k, "z") or {})
         added = changed = 0
-        gtlt = self.q and (b"GT" in opts or b"LT" in opts)          # A-48
-        if self.q:
-            opts.discard(b"CH")                                     # A-48: accepted and ignored
-            if opts & {b"NX", b"XX", b"GT", b"LT"}:
-                pairs = pairs[:1]                                   # A-48: only the first pair is processed
+        if (b"NX" in opts and opts & {b"XX", b"GT", b"LT"}) or (b"GT" in opts and b"LT" in opts):
+            raise Err()
         for sc, m in pairs:
             if m in z:
                 if b"NX" in opts: continue
@@ -496,10 +492,10 @@ class Ref:
                     changed += 1
                 z[m] = sc
             else:
-                if b"XX" in opts or gtlt: continue
+                if b"XX" in opts: continue
                 z[m] = sc; added += 1
         self.put(k, "z", z)
-        return ":%d" % (added + changed if (b"CH" in opts or gtlt) else added)
+        return ":%d" % (added + changed if b"CH" in opts else added)
 
     def c_zcard(self, k): return ":%d" % len(self.get(k, "z") or {})
 
@@ -650,6 +646,8 @@ def gen(rng, n, fams="sslhtzzk"):
         elif fam == "z":
             k = K("z")
             cmd = c([lambda: [b"ZADD", k, c(scores), c(mem)], lambda: [b"ZADD", k, c(scores), c(mem), c(scores), c(mem)], lambda: [b"ZADD", k, c([b"NX", b"XX", b"GT", b"LT", b"CH"]), c(scores), c(mem)],
+                     lambda: [b"ZADD", k] + c([[b"NX"], [b"XX"], [b"GT"], [b"LT"], [b"CH"], [b"NX", b"CH"], [b"XX", b"CH"], [b"XX", b"GT"], [b"XX", b"LT"], [b"GT", b"CH"], [b"LT", b"CH"], [b"XX", b"GT", b"CH"],
+                                               [b"NX", b"XX"], [b"GT", b"LT"], [b"NX", b"GT"]]) + [x for _ in range(c([2, 2, 3])) for x in (c(scores), c(mem))],
                      lambda: [b"ZCARD", k], lambda: [b"ZSCORE", k, c(mem)], lambda: [b"ZRANK", k, c(mem)], lambda: [b"ZREVRANK", k, c(mem)], lambda: [b"ZINCRBY", k, c(scores[:7]), c(mem)],
                      lambda: [b"ZREM", k, c(mem)], lambda: [b"ZREM", k, c(mem), c(mem)], lambda: [b"ZCOUNT", k, c(bounds), c(bounds)], lambda: [b"ZRANGEBYSCORE", k, c(bounds), c(bounds)],
                      lambda: [b"ZRANGEBYSCORE", k, c(bounds), c(bounds), b"WITHSCORES"], lambda: [b"ZRANGEBYSCORE", k, c(bounds), c(bounds), b"LIMIT", c([b"0", b"1", b"2", b"-1"]), c([b"0", b"1", b"2", b"-1", b"10"])],
